@@ -115,7 +115,14 @@ def run_case(case):
 
     import numpy as np
     from scipy.special import gammaincc
-    from bldfm import ffm_kormann_meixner as KM
+    from bldfm import ffm_kormann_meixner as _KM
+    from vlib import purity
+    import types
+
+    # the functions under test behind the argument-purity monitor (vlib.purity)
+    KM = types.SimpleNamespace(**{n: getattr(_KM, n) for n in dir(_KM) if not n.startswith("__")})
+    KM.estimateFootprint = purity.guarded(_KM.estimateFootprint, "estimateFootprint")
+    KM.estimateZ0 = purity.guarded(_KM.estimateZ0, "estimateZ0")
     from vlib import gen
 
     rng = gen.rng_for(case["seed"], "C19", case["idx"])
